@@ -76,6 +76,17 @@ Proof.
   intros H. destruct (getn_updn_cases i f s k) as [[_ E]|E]; rewrite E; auto.
 Qed.
 
+Lemma list_upd_id {A} (l : list A) i f d : f (nth i l d) = nth i l d -> list_upd l i f = l.
+Proof.
+  revert i; induction l as [|x t IH]; intros [|i] H; cbn in *; auto; f_equal; auto.
+Qed.
+
+Lemma updn_id i f s : f (getn s i) = getn s i -> updn i f s = s.
+Proof.
+  intros H. unfold updn. unfold getn in H. rewrite (list_upd_id (nodes s) i f dnode H).
+  destruct s; reflexivity.
+Qed.
+
 Lemma ready_updn i f s : ready (updn i f s) = ready s.  Proof. reflexivity. Qed.
 Lemma trace_updn i f s : trace (updn i f s) = trace s.  Proof. reflexivity. Qed.
 Lemma err_updn i f s : err (updn i f s) = err s.        Proof. reflexivity. Qed.
